@@ -99,6 +99,22 @@ def runMoead (t : Nat) (weights nbh : List (List Nat)) (m d : Nat) (s : MoeadSta
       let s' := moeadUpdate t weights nbh s (off.getD 0 default)
       showPop s'.parents :: runMoead t weights nbh m d s' steps l
 
+/-- NSGA-III history: per step the observed association `count nz k z k z …` -/
+def runNsga3 (mu m d : Nat) (parents : List Indiv) : Nat → List Int → List Int → List String
+  | 0, _, _ => []
+  | steps + 1, l, aux =>
+    match l with
+    | [] => ["short"]
+    | c :: l =>
+      let (off, l) := parseOff d m c.toNat l
+      let cnt := (aux.getD 0 0).toNat
+      let nz := (aux.getD 1 0).toNat
+      let kv := ((aux.drop 2).take (2 * cnt)).map Int.toNat
+      let assoc := (List.range cnt).map fun i => (kv.getD (2 * i) 0, kv.getD (2 * i + 1) 0)
+      let ind : List Pt → Indicator := fun _ => fun _front archive K => nsga3Least nz archive.length assoc K
+      let next := genUpdate ind parents off mu
+      showPop next :: runNsga3 mu m d next steps l (aux.drop (2 + 2 * cnt))
+
 def runRvea (mu m d groups : Nat) (parents : List Indiv) : Nat → List Int → List Int → List String
   | 0, _, _ => []
   | steps + 1, l, aux =>
@@ -119,14 +135,28 @@ def step (line : String) : String :=
   | "opt" :: rest =>
     -- optimizer runs are checked by the harness' oracle; the expected observation is constant
     if rest.length == 8 || rest.length == 9 then s!"opt ok steps={rest.getD 6 "?"}" else "bad-op"
-  | "sel" :: ind :: rest =>
+  | "sel" :: ind :: rest0 =>
+    let rest := rest0.takeWhile (· ≠ "aux")
+    let auxT := (rest0.dropWhile (· ≠ "aux")).drop 1
     match rest.mapM String.toInt? with
     | some (mu :: m :: n :: nums0) =>
       let hvr := ind == "hvr"
       let nums := if hvr then nums0.drop m.toNat else nums0
       let S := chunk m.toNat n.toNat nums
       let ranks := fastSort S
-      match indicatorOf (if hvr then "hv" else ind) m.toNat (if hvr then nums0.take m.toNat else refAbove m.toNat S) with
+      -- NSGA-III: the association step (floating point) is an observed input
+      let nsga3 : Option (List Pt → Indicator) :=
+        match auxT.mapM String.toNat? with
+        | some (nz :: kv) =>
+          if ind == "nsga3" then
+            let assoc := (List.range (kv.length / 2)).map fun i => (kv.getD (2 * i) 0, kv.getD (2 * i + 1) 0)
+            some fun _ => fun _front archive K => nsga3Least nz archive.length assoc K
+          else none
+        | _ => none
+      let modelled := match nsga3 with
+        | some f => some f
+        | none => indicatorOf (if hvr then "hv" else ind) m.toNat (if hvr then nums0.take m.toNat else refAbove m.toNat S)
+      match modelled with
       | some mk =>
         let flags := select (mk S) ranks mu.toNat
         let (r, _) := lastFront ranks mu.toNat
@@ -191,6 +221,10 @@ def step (line : String) : String :=
         " / ".intercalate (showPop parents :: runMoead t weights nbh m d s0 steps nums)
       else if algo == "rvea" then
         " / ".intercalate (showPop parents :: runRvea mu m d mu parents steps nums aux)
+      else if algo == "nsga3" then
+        -- doInit: selection with mu = n (nothing is deselected, the association does not matter)
+        let init := applySelect (fun _ => fun _ _ _ => []) parents mu
+        " / ".intercalate (showPop init :: runNsga3 mu m d init steps nums aux)
       else
         let ind : List Pt → Indicator :=
           if algo == "nsga2" then mkIndicator (crowdLeast floatNum)
